@@ -27,6 +27,7 @@ func init() {
 	}
 	registerReplay("TestC10_NumericEdges", replay)
 	registerReplay("TestC10_TransformSelfReference", replay)
+	registerReplay("TestC10_EmptyResults", replay)
 }
 
 var c10EdgeNumbers = []string{"1.7e308", "-1.7e308", "1e308", "-1e308", "8.9e307", "1.7976931348623157e308", "5e-324", "-5e-324", "2.2250738585072014e-308", "1", "-1", "0", "9007199254740993", "1e-320", "3", "0.5"}
@@ -133,6 +134,43 @@ func TestC10_TransformSelfReference(t *testing.T) {
 		}
 	}
 	rec.Exhaustive("self_referential_transforms", n)
+}
+
+// TestC10_EmptyResults: built-ins whose result has no members. An empty
+// result must be one JSON value - an empty array / object or 'no value' -
+// never a nil slice or map (an array to the evaluator, null to the encoder).
+func TestC10_EmptyResults(t *testing.T) {
+	rec := begin(t, "C10", "enumerated: 40 calls of array- and object-returning built-ins whose result is empty (nothing kept, empty argument, no match), bare, inside an array constructor, as an object member, stringified and counted, on 3 inputs; oracle: the strict JSON walk (a nil slice/map is rejected), json.Marshal, Eval = EvalBytes, $exists coherence; non-trivial = all; distinct by program + input")
+	defer finish(t, rec)
+	calls := []string{
+		`$filter(a, function($v){false})`, `$filter([], function($v){true})`, `$filter(zz, function($v){true})`, `$map([], function($v){$v})`, `$map(a, function($v){zz})`,
+		`$sift(o, function($v){false})`, `$sift({}, function($v){true})`, `$spread({})`, `$spread([])`, `$keys({})`, `$keys([])`, `$each({}, function($v){$v})`, `$each(o, function($v){zz})`,
+		`$distinct([])`, `$reverse([])`, `$sort([])`, `$sort([], function($l, $r){$l > $r})`, `$append([], [])`, `$zip([], [])`, `$zip(a, [])`, `$shuffle([])`, `$merge([])`, `$merge([{}])`,
+		`$split("", "x", 0)`, `$split("abc", "b", 0)`, `$match("a", /b/)`, `$match("a", /a/, 0)`, `a[$ > 100]`, `a[10]`, `o.*[zz]`, `[1..0]`, `$lookup(o, "zz")`, `$lookup([], "zz")`,
+		`$reduce([], function($x, $y){$x})`, `$single([1], function($v){$v = 1}) ~> $filter(function($v){false})`, `$string($filter(a, function($v){false}))`, `$count($filter(a, function($v){false}))`,
+		`$append($filter(a, function($v){false}), $map([], function($v){$v}))`, `a^(zz)[zz]`, `o{zz: 1}`,
+	}
+	wraps := []string{`X`, `[X]`, `{"k": X}`, `[X, X]`, `$string(X)`, `$count(X)`, `$exists(X)`, `$type(X)`, `X = []`, `$append(X, X)`}
+	inputs := []string{`{"a":[1,2,3],"o":{"x":1}}`, `{"a":[],"o":{}}`, `[]`}
+	n := 0
+	for _, call := range calls {
+		for _, w := range wraps {
+			for _, in := range inputs {
+				n++
+				text := strings.ReplaceAll(w, "X", call)
+				c := c10Case{Text: text, Input: in, Det: !strings.Contains(call, "shuffle")}
+				m, info := c10Run(c)
+				rec.Case(text+"|"+in, true, func() interface{} {
+					return map[string]interface{}{"expr": text, "input": in, "outcome": info.kind}
+				})
+				rec.Class("outcome_" + info.kind)
+				if m != "" && rec.FailNow(c, m) >= 6 {
+					return
+				}
+			}
+		}
+	}
+	rec.Exhaustive("empty_result_calls", n)
 }
 
 func replaceAllStr(s, old, new string) string {
